@@ -15,7 +15,7 @@ use crate::rawnet::*;
 use crate::rng::Rng;
 use crate::sim::*;
 
-const FORGERIES_IMM: &[&str] = &["wrong-hash", "bit-flip", "mutable-shaped", "empty", "oversize", "other-immutable"];
+const FORGERIES_IMM: &[&str] = &["wrong-hash", "bit-flip", "mutable-shaped", "empty", "oversize", "other-immutable", "bencoded-form", "truncated", "extended"];
 const FORGERIES_MUT: &[&str] = &[
     "other-key-valid-sig",
     "other-salt-valid-sig",
@@ -180,6 +180,19 @@ fn run(ctx: &RunCtx) -> Report {
                     }
                     "empty" => r.push(("v", Value::Bytes(vec![]))),
                     "oversize" => r.push(("v", Value::Bytes(vec![0x41; 1500]))),
+                    "bencoded-form" => {
+                        // the genuine value in its bencoded form "<len>:<value>": its plain SHA-1 is the
+                        // target, its BEP44 hash is not
+                        let mut v = format!("{}:", value.len()).into_bytes();
+                        v.extend_from_slice(&value);
+                        r.push(("v", Value::Bytes(v)));
+                    }
+                    "truncated" => r.push(("v", Value::Bytes(value[..value.len() - 1].to_vec()))),
+                    "extended" => {
+                        let mut v = value.clone();
+                        v.push(0);
+                        r.push(("v", Value::Bytes(v)));
+                    }
                     _ => r.push(("v", Value::Bytes(b"some other immutable value".to_vec()))),
                 }
             } else if q == "get" && target == mut_target {
